@@ -51,9 +51,18 @@ def flatmap_shape(fn, loop_index=0, accumulators=None):
     if loop.orelse:
         raise ShapeError("for-else")
     body = ast.Module(body=loop.body, type_ignores=[])
-    for n in ast.walk(body):
-        if isinstance(n, (ast.Break, ast.Return, ast.Yield, ast.YieldFrom, ast.Nonlocal, ast.Global, ast.While)):
-            raise ShapeError(f"{type(n).__name__} inside the loop body")
+
+    def scan(nodes, depth):
+        for n in nodes:
+            if isinstance(n, ast.Break) and depth == 0:
+                raise ShapeError("break out of the loop under analysis")
+            if isinstance(n, (ast.Return, ast.Yield, ast.YieldFrom, ast.Nonlocal, ast.Global)):
+                raise ShapeError(f"{type(n).__name__} inside the loop body")
+            inner = depth + 1 if isinstance(n, (ast.For, ast.While)) else depth
+            if isinstance(n, ast.While) and depth == 0 and False:
+                pass
+            scan(list(ast.iter_child_nodes(n)), inner)
+    scan(loop.body, 0)
     targets = set(_names(loop.target, ast.Store))
     # accumulators: names used as receiver of append/extend or as subscript-store base
     acc = set()
